@@ -318,3 +318,5 @@ def run(ctx, led):
              "scaled view; after a failure the hard clause is exactly its negation", o4, ctx)
     run_rule(led, "O5", "every result that carries a solution is dominated by an incumbent update; "
              "the update assigns both out-parameters on every path", o5, ctx)
+    from . import C05 as _C05
+    run_rule(led, "O7", "an unsatisfiable-under-assumptions result restores the root state when it is dropped, so a following optimise starts from the model alone (shared with C05-A1)", _C05.a1, ctx)
